@@ -1802,6 +1802,8 @@ mod crypto {
                                 assert!(sizebuf_bytes_read <= 8);
                             }
                         }
+                        // Must not return here: the bytes of the size header read so far would be lost
+                        Err(err) if err.kind() == ErrorKind::Interrupted => continue,
                         Err(err) => return Err(err),
                     }
                     if sizebuf_bytes_read == 8 {
